@@ -99,6 +99,15 @@ def run(rep, drv):
 				warnings.simplefilter('ignore')
 				g = lambda y: h * ((y - mu) * norm.cdf((y - mu) / sigma) + sigma * norm.pdf((y - mu) / sigma)) + p * ((mu - y) * (1 - norm.cdf((y - mu) / sigma)) + sigma * norm.pdf((y - mu) / sigma))
 				Q = max(1.0, math.sqrt(2 * K * lam / h)) * rng.choice([0.5, 1, 1.7]); r = mu + sigma * rng.choice([-1, 0, 1, 2])
+				where = rng.choice(['near', 'near', 'far-below', 'far-above', 'straddling-wide'])
+				if where == 'far-below':
+					# the whole range (r, r+Q] many standard deviations below the mean lead-time demand (legal: cost of a badly understocked pair)
+					Q = max(1.0, sigma * rng.choice([0.5, 2])); r = mu - sigma * rng.choice([10, 14, 30]) - Q
+				elif where == 'far-above':
+					Q = max(1.0, sigma * rng.choice([0.5, 2])); r = mu + sigma * rng.choice([9, 15])
+				elif where == 'straddling-wide':
+					r = mu - sigma * 12; Q = sigma * 25
+				rep.count('normal:range-' + where)
 				cst = rq.r_q_cost(r, Q, h, p, K, lam, sd, L)
 				xs = np.linspace(r, r + Q, 4001)
 				ref = (K * lam + float(np.trapezoid([g(x) for x in xs], xs))) / Q
